@@ -40,7 +40,10 @@ MODELS_QUICK = ["MCP_quick"]
 MODELS_THOROUGH = ["MCP_quick", "MCP_pinned_noquote", "MCP_thorough", "MCP_pinned_noquote_thorough"]
 # deliberately wrong models: cfg -> invariants one of which must be reported violated
 BROKEN = {
-    "MCP_pinned": {"ClientNeverSelected", "ImplMeetsContract"},   # the code as pinned: RFC quoted-string list parsing
+    # the code before repo commit 2d7315b (fixes/X01-*.diff): RFC quoted-string list parsing lets a quote sent by the
+    # client merge the proxies' values; rejected by the model invariant and by the clauses the trace judge uses
+    "MCP_pinned": {"ClientNeverSelected"},
+    "MCP_pinned_contract": {"ImplMeetsContract"},
     "MCP_left": {"TrustIndex", "ImplMeetsContract"},              # n-th value from the left (the client's side)
     "MCP_nozero": {"ZeroIgnored", "ImplMeetsContract"},           # n = 0 not ignored (values[-0])
     "MCP_noshort": {"FewerUntouched", "ImplMeetsContract"},       # fewer values than n: clamps to the left-most
@@ -52,7 +55,9 @@ BROKEN = {
 
 def _cls(line: dict, hdr: str) -> str:
     """label (part of the violation key, not a verdict): what kind of header text the rejected case had"""
-    names = {"for": ["for"], "proto": ["proto"], "prefix": ["prefix"], "hostport": ["host", "port"]}.get(hdr.split("/")[0], list(pf.NAMES))
+    names = {"for": ["for"], "proto": ["proto"], "prefix": ["prefix"], "hostport": ["host", "port"]}.get(hdr.split("/")[0])
+    if not names:
+        return "-"
     texts = [pf.unslot(line["hd"][k]) or "" for k in names]
     if any('"' in x for x in texts):
         return "quote"
@@ -111,7 +116,7 @@ def judge(ctx: Ctx, cases, lines, kind="pfix"):
     for r in ctx.judge(AREA, JUDGE, lines, batch=1500 if ctx.quick else 4000):
         ln = lines[r["t"]]
         hdr = r.get("hdr", "")
-        ctx.violation(f"{r['clause']}:{hdr}:{_cls(ln, hdr)}", r["clause"], _strip(cases[r["t"]]), kind=kind)
+        ctx.violation(f"{r['clause']}:{hdr or '-'}:{_cls(ln, hdr)}", r["clause"], _strip(cases[r["t"]]), kind=kind)
 
 
 def code_to_spec_cases(ctx: Ctx):
